@@ -139,7 +139,7 @@ func runOne(t *testing.T, p *simkit.Prop, c *simkit.Case, idx int, keep bool) *s
 	run := simkit.NewRun(c, keep)
 	maxWall := p.MaxWall
 	if maxWall == 0 {
-		maxWall = 60 * time.Second
+		maxWall = 30 * time.Second
 	}
 	wd := time.AfterFunc(maxWall, func() {
 		// Outside the bubble: real time. A run that does not finish is either a
@@ -183,6 +183,7 @@ func runOne(t *testing.T, p *simkit.Prop, c *simkit.Case, idx int, keep bool) *s
 				simkit.SetYield(0, 1)
 			}
 			simkit.SchedSeed(c.SchedSeed)
+			simkit.SetWallLimit(int64(maxWall))
 			run.T0 = time.Now()
 			p.Exec(run)
 			run.EndNs = int64(time.Since(run.T0))
@@ -198,6 +199,7 @@ func runOne(t *testing.T, p *simkit.Prop, c *simkit.Case, idx int, keep bool) *s
 		simkit.SchedSeed(0)
 	}()
 	wd.Stop()
+	simkit.SetWallLimit(0)
 	res := run.Finish(idx, time.Since(t0), status, errText)
 	if res.Status != "ok" || keep {
 		res.Events = run.OrderedEvents()
